@@ -128,12 +128,23 @@ struct StaticClass {
         draw_env(p, env, large, g.tsan);
         sim::Env e = env_from_plan(p);
         size_t geps = Tr::gen_eps(p, cfg);
-        bool scale = scale_slot(g) && std::is_integral_v<K> && (g.prop == "C08" || g.prop == "C09" || g.prop == "C10" || g.prop == "C18");
-        std::string sig = scale ? set_scale_recipe<K>(p, geps, cfg, work, Tr::allow_16m, Tr::float_slopes) : gen_keys_into<K>(p, n, geps, chunks_for(e, n), cfg, work);
+        bool scale = scale_slot(g) && std::is_integral_v<K> && (g.prop == "C08" || g.prop == "C09" || g.prop == "C10" || g.prop == "C18" || (g.prop == "C17" && sizeof(K) == 8));
+        bool scale19 = scale_slot(g) && std::is_integral_v<K> && sizeof(K) >= 4 && g.prop == "C19" && E <= 8;
+        std::string sig;
+        if (scale19) { // lifetime history over an index with tens of thousands of segments (succinct structures switch representation there)
+            p.keys.clear();
+            p.set("recipe", "walk " + std::to_string(cfg.range(scale_cheap_only ? 500000 : 700000, scale_cheap_only ? 700000 : 1500000)) + " " + std::to_string(work.next() >> 1) + " " + std::to_string(sizeof(K) == 4 ? 8 : 24) + " 0 0");
+            p.set("recipe_start", cfg.range(0, 100000));
+            p.set("scale", 1);
+            sig = "scale-walk+";
+        } else
+        sig = scale ? set_scale_recipe<K>(p, geps, cfg, work, Tr::allow_16m, Tr::float_slopes, g.prop == "C17") : gen_keys_into<K>(p, n, geps, chunks_for(e, n), cfg, work);
         p.set("motifs", sig);
         p.set("qseed", work.next() >> 1);
         if (!scale) p.set("qmax", large ? 1500 : 2000);
-        if (g.prop == "C19") { p.set("steps", draw_lifetime_steps(cfg)); p.set("qmax", large ? 300 : 400); }
+        if (!p.has("recipe")) { Rng shape = sim::stream(g.run_seed, "shape"); Tr::post_keys(p, shape); }
+        if (!scale && !scale19 && (g.prop == "C08" || g.prop == "C09" || g.prop == "C10" || g.prop == "C18" || g.prop == "C17") && cfg.chance(g.prop == "C18" ? 400 : 150)) p.set("successor", 1);
+        if (g.prop == "C19") { p.set("steps", draw_lifetime_steps(cfg)); p.set("qmax", scale19 ? 20000 : (large ? 300 : 400)); }
         if (g.prop == "C20") p.set("reserved_copies", cfg.range(1, 3));
         p.set("known_skip", 1); // queries inside the query-level predicate of a known finding are executed but not judged
         (void) st;
@@ -196,6 +207,7 @@ struct StaticClass {
         size_t segs = Tr::segments(*idx);
 
         if (prop == "C19") {
+            if (segs > 33000) st.inc("reach.c19_over_33000_segments"); // succinct select/rank structures switch to their long-block form
             Rng r(p.get_u("qseed", 1) ^ 0xC19);
             auto answers = [&](const Index &ix) {
                 std::vector<uint64_t> v;
@@ -234,6 +246,35 @@ struct StaticClass {
             if (!aux.check(*idx, data, q, r, o, st)) { if (prop != "C17") break; else { scratch = Outcome(); } }
             st.inc("queries");
         }
+        if (p.get_u("successor", 0) && n >= 4 && !queries.empty() && (out.ok || prop == "C17")) {
+            // History step: the index is destroyed and a different one is created straight away (the allocator hands the
+            // same address back); its first query is the last one the destroyed index answered.
+            delete idx;
+            idx = nullptr;
+            std::vector<K> data2;
+            for (size_t i = 0; i < n; ++i) if ((i & 1) || i + 1 == n) data2.push_back(data[i]);
+            sim::begin_run(env);
+            try { idx = Tr::build(data2); } catch (const std::exception &e) { idx = nullptr; }
+            sim::end_run();
+            if (!idx) { if (prop != "C17") out.fail("ctor-exception", "successor index: constructor threw on in-domain data"); out.trace_hash = tr.h; return out; }
+            st.inc("successor_runs");
+            typename Tr::Aux aux2(*idx, data2);
+            for (size_t qi = queries.size(); qi-- > 0;) {
+                K q = queries[qi];
+                Approx r = Tr::search(*idx, q);
+                tr.add(r.pos); tr.add(r.lo); tr.add(r.hi);
+                if (aux2.known_affected(q)) {
+                    if (known_skip) { st.inc("known_finding_queries_skipped"); continue; }
+                    if (out.preds.find(aux2.known_pred()) == std::string::npos) out.preds += std::string(aux2.known_pred()) + ",";
+                }
+                if (!check_contract(data2, q, r, Tr::eps_of(p), clauses, o) || !aux2.check(*idx, data2, q, r, o, st)) {
+                    if (prop == "C17") { scratch = Outcome(); continue; }
+                    o.detail = "successor index (built at the address of a destroyed one): " + o.detail;
+                    break;
+                }
+                st.inc("queries");
+            }
+        }
         if (segs >= 2 && any_present && any_absent) st.inc("nontrivial_runs");
         if (sim_active) st.mark("nontrivial", tr.h); else if (segs >= 2 || prop == "C17") st.mark("nontrivial", sim::mix(sim::hash_str(ce.name.c_str()), sim::hash_str(p.get("motifs").c_str()) ^ n));
         if (st.samples.size() < 3 && (sim_active || st.counters["runs"] % 50 == 7)) st.samples.push_back(abbreviate_plan(p) + " segments=" + std::to_string(segs));
@@ -262,6 +303,7 @@ struct TraitsBase {
     static constexpr bool float_slopes = false;
     static constexpr bool allow_16m = false; ///< scale slots may use more than 2^24 keys (classes predicting in the slope type)
     static size_t gen_eps(PlanText &, Rng &) { return Eps_; }
+    static void post_keys(PlanText &, Rng &) {} ///< class-specific reshaping of the generated keys (explicit key lists only)
     static std::string preds(const std::vector<K> &) { return ""; }
     static bool out_of_domain(const std::exception &) { return false; }
     static size_t eps_of(const PlanText &) { return Eps; }
